@@ -126,11 +126,31 @@ def match_facts(ex, st, a, prefix):
     return s2, sm
 
 
+def is_abstract(st, e):
+    return st.get(e, "ident") is not None
+
+
+def wf(ident):
+    """abstract view: the entity satisfies the preconditions of the entity contracts (system invariants
+    INV_cache / inv_crec / inv_structure, 5' cutter)"""
+    return tm.app("wf", BOOL, ident)
+
+
+def valid(ident):
+    """abstract view: the entity's class accepts its record (negation of the `raises` condition of _match)"""
+    return tm.app("valid", BOOL, ident)
+
+
 class EntityMethod(Contract):
-    """common part of overhang_start/end, target_sequence, placeholder_sequence"""
+    """common part of overhang_start/end, target_sequence, placeholder_sequence.
+
+    Two views of the same contract: on a concrete entity (class and record symbolic) the closed forms are spelled
+    out; on an *abstract* entity (an integer identity, used by the assembly contracts) the same closed forms are
+    referred to by name: valid(e), ostart(e), oend(e), frag(e), efeats(e), eid(e) -- functions of the entity only."""
     variants = ("CircularRecord",)
     symbase = None
     props = ("C04", "C02", "C17", "C01")
+    abstract_name = None
 
     def setup(self, ex, st, variant):
         ex.models.init_cache(st)
@@ -138,15 +158,21 @@ class EntityMethod(Contract):
         return dict(self=ex.models.sym_entity(st, self.symbase, "self", record=rec))
 
     def requires(self, ex, st, a):
+        if is_abstract(st, a["self"]):
+            return [("well-formed-entity", wf(st.get(a["self"], "ident").t))]
         return entity_requires(ex, st, a["self"]) + [("five-prime-cutter", tm.not_(is3(st, a["self"])))]
 
     def cover_hint(self, ex, st, a):
         return cache_cover_hint(ex, st, st.get(a["self"], "record"))
 
     def assumes(self, ex, st, a):
+        if is_abstract(st, a["self"]):
+            return []
         return [entity_terms(ex, st, a["self"])["axiom"]]
 
     def raises(self, ex, st, a):
+        if is_abstract(st, a["self"]):
+            return [("InvalidSequence", tm.not_(valid(st.get(a["self"], "ident").t)), None)]
         return valid_or_raises(self, ex, st, a)
 
     def the_match(self, ex, st, a):
@@ -164,6 +190,8 @@ class Overhang(EntityMethod):
     group = 1
 
     def ensures(self, ex, pre, st, a, result):
+        if is_abstract(pre, a["self"]):
+            return []
         sm = self.the_match(ex, st, a)
         if sm is None:
             return [("match-consulted", tm.FALSE)]
@@ -174,6 +202,9 @@ class Overhang(EntityMethod):
                  tm.eq(ex.models.text(st, result), tm.substr(d, s0, tm.sub(s1, s0))))]
 
     def result(self, ex, st, a):
+        if is_abstract(st, a["self"]):
+            st = st.fork()
+            return [(st, ex.models.mk_seq(st, tm.app(self.abstract_name, STR, st.get(a["self"], "ident").t)))]
         s2, sm = match_facts(ex, st, a, "oh")
         s2 = s2.fork()
         s, d = doubled_text(ex, s2, a["self"])
@@ -185,19 +216,19 @@ class Overhang(EntityMethod):
 
 
 class ModuleOverhangStart(Overhang):
-    file, qual, symbase, group = MOD, "AbstractModule.overhang_start", "AbstractModule", 1
+    file, qual, symbase, group, abstract_name = MOD, "AbstractModule.overhang_start", "AbstractModule", 1, "ostart"
 
 
 class ModuleOverhangEnd(Overhang):
-    file, qual, symbase, group = MOD, "AbstractModule.overhang_end", "AbstractModule", 3
+    file, qual, symbase, group, abstract_name = MOD, "AbstractModule.overhang_end", "AbstractModule", 3, "oend"
 
 
 class VectorOverhangStart(Overhang):
-    file, qual, symbase, group = VEC, "AbstractVector.overhang_start", "AbstractVector", 3
+    file, qual, symbase, group, abstract_name = VEC, "AbstractVector.overhang_start", "AbstractVector", 3, "ostart"
 
 
 class VectorOverhangEnd(Overhang):
-    file, qual, symbase, group = VEC, "AbstractVector.overhang_end", "AbstractVector", 1
+    file, qual, symbase, group, abstract_name = VEC, "AbstractVector.overhang_end", "AbstractVector", 1, "oend"
 
 
 class TargetSequence(EntityMethod):
@@ -208,6 +239,8 @@ class TargetSequence(EntityMethod):
     props = ("C04", "C01", "C02", "C08", "C09", "C17")
 
     def ensures(self, ex, pre, st, a, result):
+        if is_abstract(pre, a["self"]):
+            return []
         sm = self.the_match(ex, st, a)
         if sm is None:
             return [("match-consulted", tm.FALSE)]
@@ -239,6 +272,23 @@ class TargetSequence(EntityMethod):
         return out
 
     def result(self, ex, st, a):
+        if is_abstract(st, a["self"]):
+            st = st.fork()
+            ident = st.get(a["self"], "ident").t
+            r = ex.models.mk_record(st, "SeqRecord", tm.app("frag", STR, ident))
+            st.set_inplace(r, "id", VT(tm.app("eid", STR, ident)))
+            st.set_inplace(r, "name", VT(tm.app("ename", STR, ident)))
+            st.set_inplace(r, "description", VT(tm.app("edesc", STR, ident)))
+            st.set_inplace(r, "features", VT(tm.app("efeats", FEATS, ident), "list"))
+            st.set_inplace(r, "dbxrefs", VT(tm.app("dbx_empty", "Dbx"), "list"))
+            d = VDict(__import__("pyvc.values", fromlist=["new_oid"]).new_oid())
+            st.set_inplace(d, "items", {})
+            st.set_inplace(r, "annotations", d)
+            la = VObj("LetAnn")
+            st.set_inplace(la, "rep", VT(tm.app("eletan", STR, ident), "list"))
+            st.set_inplace(r, "letter_annotations", la)
+            st.set_inplace(r, "fresh", VT(tm.TRUE))
+            return [(st, r)]
         s2, sm = match_facts(ex, st, a, "ts")
         s2 = s2.fork()
         r = ex.models.sym_record(s2, "SeqRecord", "target!%d" % next(tm._fresh), ann_keys=())
